@@ -1,8 +1,15 @@
 """C20 — see DESIGN.md §4."""
 from ..spec import run_specs
+from .. import reuse
+from ..witness import run_witnesses
 
 EXPLANATION = 'Reset discipline: UnwindContext::initialize resets before use and reset stores every field; read_attributes clears the buffer first; no iterator/cursor type holds interior mutability; witnesses that two tables cannot share a context. Equality of reused vs fresh results is NOT decided.'
 
 
 def run(rep, ctx):
+    g = ctx.g
     run_specs(rep, ctx, 'C20')
+    reuse.run_reset(rep, g)
+    reuse.run_buffers(rep, g)
+    reuse.run_no_hidden_state(rep, g)
+    run_witnesses(rep, ['OneTablePerContext', 'OneNodePerTree'])
